@@ -3,7 +3,7 @@
    Proofs/FenceRegProofs.v.  Model: Model/Fence.v (fenceMatch / FenceMatch, doc_msgs) and
    Model/HookReg.v (registries, getQueueCandidates). *)
 From Coq Require Import List Bool ZArith.
-From T38 Require Import Base.Bytes Model.Fence Model.HookReg Proofs.FenceProofs Proofs.FenceRegProofs.
+From T38 Require Import Base.Bytes Model.Fence Model.HookReg Proofs.FenceProofs Proofs.FenceRegProofs Proofs.FenceSinkProofs.
 Import ListNotations.
 
 (* The table.  For every DETECT value (no clause, or any of the 32 subsets), every SET / FSET (and
@@ -101,6 +101,56 @@ Proof.
 Qed.
 Print Assumptions c05_del_drop.
 
+(* What reaches the sink of hook h (the subscribers of its channel, or its webhook manager) for one
+   write: h's own FenceMatch result if h is among the candidates, nothing otherwise - whatever the
+   other candidates produce, in whatever order the candidate map is iterated (cl = any duplicate-free
+   enumeration of it), through the separate stable sorts of channel and webhook messages. *)
+Theorem c05_sink_delivery : forall r cl cf af h,
+  reg_inv r -> NoDup (map h_name cl) -> (forall x, In x cl -> In x (hooks r)) -> In h (hooks r) ->
+  (if h_chan h then channel_delivery cl cf af (h_name h) else webhook_delivery cl cf af (h_name h)) =
+  if existsb (fun x => bytes_eqb (h_name x) (h_name h)) cl
+  then msgs_of (fence_match (af h) (h_detect h) (cf h)) else [].
+Proof. exact sink_delivery. Qed.
+Print Assumptions c05_sink_delivery.
+
+(* The SET / FSET results are identical for a webhook, a channel and a live connection with the
+   same fence definition (key, DETECT, area, hence the same abstract case x and COMMANDS verdict acc
+   for the write), in every reachable registry, whatever other hooks exist: all three receive
+   msgs_of (fence_match acc D x) (the hook / meta / group fields are not part of fmsg).  Oracle
+   hypotheses as in c05_candidates_complete. *)
+Theorem c05_same_for_all_sinks : forall r cl cf af hw hc k D a x acc old_r new_r,
+  reg_inv r ->
+  NoDup (map h_name cl) -> (forall h, In h cl <-> In h (candidates r k old_r new_r)) ->
+  In hw (hooks r) -> In hc (hooks r) -> h_chan hw = false -> h_chan hc = true ->
+  h_key hw = k -> h_key hc = k -> h_detect hw = D -> h_detect hc = D ->
+  h_area hw = Some a -> h_area hc = Some a ->
+  cf hw = x -> cf hc = x -> af hw = acc -> af hc = acc ->
+  is_move (c_cmd x) = true ->
+  (sp_of (c_obj x) = true -> exists r2, new_r = Some r2 /\ overlaps a r2 = true) ->
+  (sp_of (c_old x) = true -> exists r1, old_r = Some r1 /\ overlaps a r1 = true) ->
+  (c_cross x = true -> is_some (c_old x) = true -> is_some (c_obj x) = true ->
+     exists r1 r2, old_r = Some r1 /\ new_r = Some r2 /\ overlaps a (hull r1 r2) = true) ->
+  webhook_delivery cl cf af (h_name hw) = msgs_of (fence_match acc D x) /\
+  channel_delivery cl cf af (h_name hc) = msgs_of (fence_match acc D x) /\
+  live_delivery k k acc D x = msgs_of (fence_match acc D x).
+Proof. exact same_for_all_sinks. Qed.
+Print Assumptions c05_same_for_all_sinks.
+
+(* The one difference between the sinks, outside SET / FSET: hooks are gated by candidate selection,
+   live connections are not.  For a delete of an object that is not a candidate reason for hook h
+   (h does not detect "outside" and the object's rectangle misses h's area) the hook's sink gets
+   nothing while a live connection with that definition gets one del.  The property only asks for a
+   del when the object WAS inside the area, where both agree (c05_del_drop): an observation. *)
+Theorem c05_del_gate_difference : forall r cl cf af h k x robj,
+  reg_inv r -> NoDup (map h_name cl) -> (forall y, In y cl <-> In y (candidates r k None (Some robj))) ->
+  In h (hooks r) -> h_key h = k -> cf h = x -> af h = true ->
+  c_cmd x = CDel -> guard_fails x = false ->
+  cand_cond h None (Some robj) = false ->
+  (if h_chan h then channel_delivery cl cf af (h_name h) else webhook_delivery cl cf af (h_name h)) = [] /\
+  live_delivery k k true (h_detect h) x = [FDel].
+Proof. exact del_gate_difference. Qed.
+Print Assumptions c05_del_gate_difference.
+
 (* ---- non-vacuity ---- *)
 Definition D_enter_cross : dset :=
   {| d_nil := false; d_inside := false; d_outside := false; d_enter := true; d_exit := false; d_cross := true |}.
@@ -130,3 +180,21 @@ Example c05_registry_example :
                     RDel [4%N] true] in
   map h_name (candidates r [107%N] (Some (sq 150 150)) (Some (sq 260 260))) = [[1%N]; [3%N]].
 Proof. vm_compute. reflexivity. Qed.
+
+(* a channel, a webhook and another (channel) fence on the same area; an outside -> inside move:
+   each of the first two sinks gets its own [enter; inside], untouched by the third fence's messages
+   that the stable sort interleaves with them *)
+Definition hw5 : hook := {| h_name := [5%N]; h_chan := false; h_key := [107%N]; h_detect := D_default; h_area := Some (sq 0 0); h_expires := false |}.
+Example c05_sinks_example :
+  let r := reg_run [RSet (hk 1 D_default (sq 0 0)) false; RSet hw5 false; RSet (hk 3 D_default (sq 0 0)) false] in
+  let cl := [hk 3 D_default (sq 0 0); hw5; hk 1 D_default (sq 0 0)] in
+  let cf := fun _ : hook => move_case CSet (Some t_out) t_in false in
+  (forall h, In h cl <-> In h (candidates r [107%N] (Some (sq 50 50)) (Some (sq 5 5)))) /\
+  fst (queue_hooks cl cf (fun _ => true)) =
+    [([1%N], FM DEnter); ([3%N], FM DEnter); ([1%N], FM DInside); ([3%N], FM DInside)] /\
+  channel_delivery cl cf (fun _ => true) [1%N] = [FM DEnter; FM DInside] /\
+  webhook_delivery cl cf (fun _ => true) [5%N] = [FM DEnter; FM DInside].
+Proof.
+  split; [|vm_compute; auto].
+  intro h. vm_compute. intuition.
+Qed.
